@@ -67,7 +67,7 @@ func run(c *vf.Ctx) {
 	for _, o := range outs {
 		judge(c, o)
 	}
-	c.Require(int64(n*250), 60)
+	c.Require(int64(n*600), 60)
 }
 
 func runChild(c *vf.Ctx, cd caseDef, tmp string) caseOut {
